@@ -602,3 +602,102 @@ Proof.
   destruct (psr_privileged psr); [rewrite <- Hsp | rewrite <- Hsp];
     (eexists _, _, _; split; [reflexivity | exact Hmeo4']).
 Qed.
+
+(* "Input character: " *)
+Definition in_prompt : list Z := [73; 110; 112; 117; 116; 32; 99; 104; 97; 114; 97; 99; 116; 101; 114; 58; 32].
+Lemma in_prompt_ok : chars_ok in_prompt.
+Proof. unfold chars_ok, in_prompt. repeat constructor; lia. Qed.
+Lemma in_prompt_at m : os_mem m -> str_at m 612 in_prompt.
+Proof.
+  intros Hos. unfold in_prompt. cbn [str_at].
+  repeat match goal with
+  | |- _ /\ _ => split
+  | |- w_data (mget m ?a) = _ => osr Hos a; reflexivity
+  end.
+Qed.
+
+Definition kb_free_from (sc : sched) (t n : nat) : Prop := forall i, (i < n)%nat -> kb_locked_at sc (t + i) = false.
+
+Lemma in_call K sc t m r0 r1 r2 r3 r4 r5 r6 r7 pc psr ssp fno frs ins pf obs mcr ch q buf sp :
+  (if psr_privileged psr then r6 else ssp) = new_init sp ->
+  OS_END + 9 <= sp <= USER_START ->
+  os_mem m -> 0 <= pc < IO_START -> may_access K psr pc = true -> mget m pc = new_init 61475 -> 0 <= fno ->
+  ds_free_from sc t 251 -> kb_free_from sc t 251 ->
+  exists m' ins' obs',
+    run sc t 251 (mk K m [r0; r1; r2; r3; r4; r5; r6; r7] pc psr ssp fno frs ins pf obs mcr (ch :: q) buf) =
+    (mk K m' [new_init ch; r1; r2; r3; r4; r5; r6; r7] (wrap16 (pc + 1)) psr ssp fno frs ins' false obs' mcr q
+        (buf ++ low8 in_prompt ++ [ch mod 256]), OOk)
+    /\ mem_eq_outside (sp - 9) sp m m'.
+Proof.
+  intros Hsp Hstk Hos Hpc Hacc Hw Hfno Hdf Hkf.
+  change 251%nat with (2 + (234 + (5 + (9 + 1))))%nat.
+  rewrite run_add. rewrite run_S.
+  erewrite step_TRAP; [ | rng | exact Hacc | exact Hw | dec | destruct (k_real K); reflexivity | | | rng ].
+  2,3: rewrite Hsp; cbn [w_data new_init]; rewrite wrap16_small by rng; rng.
+  rewrite Hsp. cbn [w_data new_init]. rewrite w_sub_init by lia.
+  rewrite !(wrap16_small (sp - 1)), !(wrap16_small (sp - 2)) by rng.
+  norm. mg. osr Hos 35. cbn [w_data new_init].
+  newmem m1 Hos1 Hos.
+  set (P := psr_set_privileged psr true). assert (HP : psr_privileged P = true) by apply psr_priv_set.
+  set (frs1 := push_frs _ _ _ _ _ _ _). set (ssp1 := if psr_privileged psr then ssp else r6).
+  assert (Hmeo1 : mem_eq_outside (sp - 9) sp m m1) by (subst m1; intros a Ha Hn; mg; reflexivity).
+  (* x025F LEA R0,S_IN_PROMPT *)
+  rewrite run_S. erewrite step_LEA; [ | rng | acc | osw Hos1 | dec ].
+  norm. cbn [run]. rewrite run_add.
+  (* x0260 PUTS *)
+  destruct (puts_call K sc (t + 2)%nat in_prompt m1 (new_init 612) r1 r2 r3 r4 r5 (new_init (sp - 2)) r7 608 (psr_set_cc P 2) ssp1 (fno + 1) frs1
+              (next_ins (next_ins ins)) false [(607, OBS_READ)] mcr (ch :: q) buf (sp - 2))
+    as (m2 & ins2 & obs2 & Hrun2 & Hmeo2).
+  { replace (psr_privileged (psr_set_cc P 2)) with true by (symmetry; priv). reflexivity. }
+  { rng. } { exact Hos1. } { rng. } { acc. } { osw Hos1. } { lia. } { exact in_prompt_ok. }
+  { apply in_prompt_at. exact Hos1. } { cbn; lia. } { cbn; rng. } { left. cbn. rng. }
+  { apply (ds_free_sub sc t 251); [exact Hdf | lia | cbn; lia]. }
+  change (13 * length in_prompt + 13)%nat with 234%nat in Hrun2. rewrite Hrun2. clear Hrun2. cbv iota.
+  replace (sp - 2 - 7) with (sp - 9) in Hmeo2 by lia.
+  assert (Hmeo2' : mem_eq_outside (sp - 9) sp m m2).
+  { apply (meo_trans _ _ m m1 m2); [exact Hmeo1 | apply (meo_weaken (sp - 9) (sp - 2)); [lia | lia | exact Hmeo2]]. }
+  assert (Hos2 : os_mem m2) by (apply (meo_os (sp - 9) sp m); [rng | exact Hos | exact Hmeo2']).
+  norm. rewrite run_add.
+  (* x0261 GETC *)
+  destruct (getc_call K sc (t + 2 + 234)%nat 0 false m2 (new_init 612) r1 r2 r3 r4 r5 (new_init (sp - 2)) r7 609 (psr_set_cc P 2) ssp1 (fno + 1) frs1
+              ins2 false obs2 mcr ch q (buf ++ low8 in_prompt) (sp - 2))
+    as (m3 & ins3 & obs3 & Hrun3 & Hmeo3 & _).
+  { replace (psr_privileged (psr_set_cc P 2)) with true by (symmetry; priv). reflexivity. }
+  { rng. } { exact Hos2. } { rng. } { acc. } { osw Hos2. } { lia. }
+  { intros i Hi. lia. }
+  { replace (t + 2 + 234 + 1 + 2 * 0)%nat with (t + 237)%nat by lia. apply Hkf. lia. }
+  { replace (t + 2 + 234 + 2 * 0 + 3)%nat with (t + 239)%nat by lia. apply Hkf. lia. }
+  change (2 * 0 + 5)%nat with 5%nat in Hrun3. rewrite Hrun3. clear Hrun3. cbv iota.
+  assert (Hmeo3' : mem_eq_outside (sp - 9) sp m m3).
+  { apply (meo_trans _ _ m m2 m3); [exact Hmeo2' | apply (meo_weaken (sp - 2 - 2) (sp - 2)); [lia | lia | exact Hmeo3]]. }
+  assert (Hos3 : os_mem m3) by (apply (meo_os (sp - 9) sp m); [rng | exact Hos | exact Hmeo3']).
+  norm. rewrite run_add.
+  (* x0262 PUTC *)
+  destruct (putc_call K sc (t + 2 + 234 + 5)%nat 0 false m3 (new_init ch) r1 r2 r3 r4 r5 (new_init (sp - 2)) r7 610 (psr_set_cc P 2) ssp1 (fno + 1) frs1
+              ins3 false obs3 mcr q (buf ++ low8 in_prompt) (sp - 2))
+    as (m4 & ins4 & obs4 & Hrun4 & Hmeo4).
+  { replace (psr_privileged (psr_set_cc P 2)) with true by (symmetry; priv). reflexivity. }
+  { rng. } { exact Hos3. } { rng. } { acc. } { osw Hos3. } { lia. }
+  { intros i Hi. lia. }
+  { replace (t + 2 + 234 + 5 + 3 + 2 * 0)%nat with (t + 244)%nat by lia. apply Hdf. lia. }
+  { replace (t + 2 + 234 + 5 + 2 * 0 + 7)%nat with (t + 248)%nat by lia. apply Hdf. lia. }
+  change (2 * 0 + 9)%nat with 9%nat in Hrun4. rewrite Hrun4. clear Hrun4. cbv iota.
+  assert (Hmeo4' : mem_eq_outside (sp - 9) sp m m4).
+  { apply (meo_trans _ _ m m3 m4); [exact Hmeo3' | apply (meo_weaken (sp - 2 - 3) (sp - 2)); [lia | lia | exact Hmeo4]]. }
+  assert (Hos4 : os_mem m4) by (apply (meo_os (sp - 9) sp m); [rng | exact Hos | exact Hmeo4']).
+  assert (Hs1 : mget m4 (sp - 1) = new_init psr).
+  { rewrite Hmeo4, Hmeo3, Hmeo2 by rng. subst m1. mg. reflexivity. }
+  assert (Hs2 : mget m4 (sp - 2) = new_init (wrap16 (pc + 1))).
+  { rewrite Hmeo4, Hmeo3, Hmeo2 by rng. subst m1. mg. reflexivity. }
+  assert (Hfr : pop_frs frs1 = frs) by (subst frs1; apply pop_push_frs).
+  norm.
+  (* x0263 RTI *)
+  rewrite run_S. erewrite step_RTI; [ | rng | acc | osw Hos4 | dec | priv | | ]; cbn [w_data new_init]; [ | rng | rewrite wrap16_small by rng; rng].
+  replace (wrap16 (sp - 2 + 1)) with (sp - 1) by (unfold wrap16; rng).
+  rewrite Hs1, Hs2. cbn [w_data new_init].
+  rewrite w_add_init by rng. replace (wrap16 (sp - 2 + 2)) with sp by (unfold wrap16; rng).
+  rewrite Hfr. replace (Z.max 0 (fno + 1 - 1)) with fno by lia.
+  cbn [run]. subst ssp1. rewrite <- app_assoc.
+  destruct (psr_privileged psr); [rewrite <- Hsp | rewrite <- Hsp];
+    (eexists _, _, _; split; [reflexivity | exact Hmeo4']).
+Qed.
